@@ -147,7 +147,13 @@ class C11(Prop):
                 return [rec]
             if k == "ctable":
                 rec = {"op": "ctable"}
-                rec["maps"] = [be.p_list(C.C(i, 0).forward_map) for i in range(24)]
+                gates = [C.C(i, 0) for i in range(24)]
+                rec["maps"] = [be.p_list(g.forward_map) for g in gates]
+                # the 24 gates handed out are changed in place by their owner; the enumeration asked for again is the same
+                for g in gates:
+                    g.forward_map.rotate_by(be.pauli([1, 0]))
+                    g.forward_map.rotate_by(be.pauli([3, 2]))
+                rec["maps2"] = [be.p_list(C.C(i, 0).forward_map) for i in range(24)]
                 return [rec]
             if k == "caction":
                 # C(k) placed on qubit q acts as the embedded table entry
